@@ -2,6 +2,7 @@ package main
 
 import (
 	"fmt"
+	"sort"
 
 	"verifharness/vt"
 
@@ -127,16 +128,16 @@ func (d *driver) runRandom(cls []*class, n, steps int) {
 					}
 					tm.OutputPrefixType = ptProto(pt)
 					d.lastType = kt.name
-					if d.r.Intn(3) == 0 { // steer the id draw towards the extremes (collisions are redrawn by the manager)
-						want := extremes[d.r.Intn(len(extremes))]
-						first := true
-						keyset.VerifDraw = func(real uint32) uint32 {
-							if first {
-								first = false
-								return want
-							}
-							return real
+					// key ids come from the seeded generator (a run is reproducible from VERIF_SEED); a third of the
+					// draws is steered towards the extremes first (the manager redraws ids that are taken)
+					steer := d.r.Intn(3) == 0
+					want := extremes[d.r.Intn(len(extremes))]
+					keyset.VerifDraw = func(uint32) uint32 {
+						if steer {
+							steer = false
+							return want
 						}
+						return d.r.Uint32()
 					}
 					var id uint32
 					id, opErr = km.Add(tm)
@@ -215,7 +216,13 @@ func (d *driver) runRandom(cls []*class, n, steps int) {
 			// outputs of every material seen colliding with every prefixed entry
 			var makers []jMaker
 			mats := map[string]bool{}
-			for _, m := range seen {
+			seenKeys := make([]string, 0, len(seen)) // (sorted: the random choices below must not depend on map order)
+			for k := range seen {
+				seenKeys = append(seenKeys, k)
+			}
+			sort.Strings(seenKeys)
+			for _, k := range seenKeys {
+				m := seen[k]
 				makers = append(makers, m)
 				other := c.pts[d.r.Intn(len(c.pts))]
 				if other != m.PT {
@@ -226,7 +233,12 @@ func (d *driver) runRandom(cls []*class, n, steps int) {
 			}
 			sortMakers(makers)
 			j := 1 + d.r.Intn(len(cur))
+			matKeys := make([]string, 0, len(mats))
 			for m := range mats {
+				matKeys = append(matKeys, m)
+			}
+			sort.Strings(matKeys)
+			for _, m := range matKeys {
 				if d.r.Intn(4) == 0 {
 					makers = append(makers, jMaker{ID: "00000000", PT: "RAW", Mat: m, Col: j})
 				}
